@@ -103,6 +103,26 @@ def vocab(draw, modes=("url", "raw", "mixed"), long_bias=0.25):
     if mode != "url":
         nraw = draw(st.integers(3, 6))
         raws = draw(st.lists(raw_stem(0.5 if long_bias > 0 else 0.0), min_size=nraw, max_size=nraw, unique=True))
+    # twins: for a multi-block stem, one more stem with the SAME first 74 bytes and a different tail, sorting below or above it
+    # (sibling stems that only differ beyond the first block are where head-only comparisons go wrong)
+    for pool in (paths, raws):
+        longs = [s for s in pool if len(s) > 76]
+        if longs and draw(st.booleans()):
+            base = draw(st.sampled_from(longs))
+            body = base[:-1]
+            kind = draw(st.sampled_from(["lower", "higher", "longer", "shorter"]))
+            last = body[-1]
+            if kind == "lower" and last > 0:
+                tw = body[:-1] + bytes([last - 1 if last - 1 != 0x7C else last - 2])
+            elif kind == "higher" and last < 255:
+                tw = body[:-1] + bytes([last + 1 if last + 1 != 0x7C else last + 2])
+            elif kind == "shorter":
+                tw = body[:-1]
+            else:
+                tw = body + bytes([draw(st.sampled_from([0x00, 0x61, 0xFF]))])
+            tw = tw + b"|"
+            if len(tw) > 75 and tw not in pool:
+                pool.append(tw)
     return Vocab(mode, hosts, paths, raws)
 
 
